@@ -7,6 +7,8 @@ from contracts import C18 as K18, C16 as K16
 TRUSTED = ['T1 pyvc model of Python (DESIGN 3)', 'T16 z3 / cvc5']
 ASSUMPTIONS = ['exceptions are instances of Exception (KeyboardInterrupt / SystemExit / GeneratorExit are out of scope)']
 
+from contracts.common import lazy_sym, lazy_nat   # noqa: E402
+
 ITEMS = [
     Item('raise_exception', BA.sym_raise_exception, [], BA.B + 'datastream_processor.py::DataStreamProcessor.raise_exception'),
     Item('safe_process', BA.sym_safe_process, [], BA.B + 'datastream_processor.py::DataStreamProcessor.safe_process'),
@@ -23,4 +25,6 @@ ITEMS = [
     Item('DumperBase.process_resources', DM.sym_process_resources, [], DM.D + 'dumper_base.py::DumperBase.process_resources'),
     Item('FileDumper.rows_processor', DM.sym_rows_processor, [], DM.D + 'file_dumper.py::FileDumper.rows_processor'),
     Item('recorded-findings', None, [('bounded', KF.nat_findings_parallelize_errors)], 'dataflows/processors/parallelize.py::work'),
+    # a user-supplied check that raises is a failing step, whatever error policy the step was given
+    Item('validate.failing-check', lazy_sym('C14', 'sym_validate_failing_check'), [], 'dataflows/processors/validate.py::validate.rows_validator.func'),
 ]
